@@ -137,12 +137,13 @@ Fixpoint forms_valid (t : apt) : Prop :=
   | AFork f lbl l r => form_valid f lbl /\ forms_valid l /\ forms_valid r
   end.
 
-(** ** serialisation [Hashmap m X] with the value stored inline after the label *)
-Variable venc : V -> bits.
+(** ** serialisation [Hashmap m X]: the value follows the label in the leaf cell;
+    a value is some bits plus some references *)
+Variable venc : V -> bits * list cell.
 
 Fixpoint cells_of (m : nat) (t : apt) : res cell :=
   match t with
-  | ALeaf f lbl v => mk_cell (enc_label f m lbl ++ venc v) []
+  | ALeaf f lbl v => mk_cell (enc_label f m lbl ++ fst (venc v)) (snd (venc v))
   | AFork f lbl l r =>
       do lc <- cells_of (m - length lbl - 1) l;
       do rc <- cells_of (m - length lbl - 1) r;
